@@ -16,7 +16,7 @@ def WHITE : Int := 0
 /-- `const BLACK: u32 = 1` (board/src/board/constants.rs:16) -/
 def BLACK : Int := 1
 
-/-- `const fn ply_clock(&self) -> u16` in `impl Bitboard` (board/src/board.rs:1068).
+/-- `const fn ply_clock(&self) -> u16` in `impl Bitboard` (board/src/board.rs:1060).
 * `turn` = field `self.turn: u32`
 * `fullmove_clock` = field `self.fullmove_clock: u32`
 `none` = panic (or out of fuel). -/
